@@ -53,7 +53,7 @@ def gen_behaviours(run, nv, depth, num, name):
 
 def validate_env_trace(run, trace, nv, label, shards=8):
     acc, rej, tlcs, lines = validate_trace("Trace_Env", trace, {"NV": nv}, os.path.join(run.prop, "tv_" + label),
-                                           shards=shards, boundary='"k":"reset"')
+                                           shards=shards, boundary='"k":"reset"', extra_cfg="CONSTANT NameSeq <- XS%d" % nv)
     for i, r in enumerate(tlcs):
         run.add_tlc("trace_%s_%d" % (label, i), r, require_actions=["Step"])
     run.impl_traces += acc
@@ -65,7 +65,8 @@ def validate_env_trace(run, trace, nv, label, shards=8):
             j -= 1
         hist = [json.loads(x) for x in lines[j:i + 1]]
         why = validate_trace.reasons.get(i, "")
-        calls = [{"op": h["op"], "args": h["args"], "par": h["par"]} for h in hist if h.get("k") == "op"]
+        calls = [({"op": h["op"], "args": h["args"], "par": h["par"]} if h.get("k") == "op" else {"op": "drop", "args": [h["h"]], "par": []})
+                 for h in hist if h.get("k") in ("op", "drop")]
         run.violation("env:%s:%s:%s" % (label, rec.get("op"), why.split(":")[0]),
                       "Trace_Env rejects event %d (%s): %s" % (i, why, lines[i].strip()[:400]),
                       {"mode": "env-history", "nv": nv, "calls": calls})
@@ -108,7 +109,7 @@ def replay_env_history(prop, rp):
         json.dump(rp["calls"], fh)
     run_harness(["exec-env", cin, tr, str(rp["nv"])])
     acc, rej, tlcs, lines = validate_trace("Trace_Env", tr, {"NV": rp["nv"]}, os.path.join(prop, "replay_tv"),
-                                           shards=1, boundary='"k":"reset"')
+                                           shards=1, boundary='"k":"reset"', extra_cfg="CONSTANT NameSeq <- XS%d" % rp["nv"])
     for i in rej:
         log("rejected: %s -- %s" % (validate_trace.reasons.get(i), lines[i].strip()[:300]))
     return len(rej) == 0
